@@ -3,6 +3,7 @@ import builtins
 import contextlib
 import copy
 import io
+import sys
 import re
 import time
 import traceback
@@ -582,7 +583,7 @@ def check_calls_with_inputs(ctx):
     for trial in range(ctx.pick(12, 200)):
         steps = []
         for _ in range(rng.randint(2, 6)):
-            kind = rng.choice(['run', 'call-ask', 'call-total', 'call-ask-kw'])
+            kind = rng.choice(['run', 'call-ask', 'call-total', 'call-ask-kw', 'run', 'run-with-the-real-console'])
             given = [str(rng.randrange(1, 50)) for _ in range(rng.randint(0, 4))]
             # (one line of input may be given by itself, as text or as a number, instead of as a list)
             form = rng.choice(['list', 'one-string', 'one-number']) if len(given) == 1 else 'list'
@@ -608,13 +609,28 @@ def _calls_with_inputs_history(ctx, case):
             return queue.pop(0) if queue else '0'
         where = dict(case, upto=idx)
         try:
-            if kind == 'run' or ref_ns is None:
-                kind = 'run'
+            if kind in ('run', 'run-with-the-real-console') or ref_ns is None:
+                kind = 'run' if kind != 'run-with-the-real-console' else kind
                 ref_ns = {'__name__': '__main__', 'input': fake_input}
                 with contextlib.redirect_stdout(io.StringIO()):
                     exec(compile(src, 'answer.py', 'exec'), ref_ns)
                 want = ref_ns['first']
-                sbx.run(inputs=handed)
+                if kind == 'run':
+                    sbx.run(inputs=handed)
+                else:
+                    # the program may print to the real console, but the inputs it was GIVEN are still what it reads
+                    saved_stdin = sys.stdin
+                    sys.stdin = io.StringIO('')
+                    try:
+                        with contextlib.redirect_stdout(io.StringIO()):
+                            sbx.get_sandbox().run(inputs=handed, real_io=True)
+                    finally:
+                        sys.stdin = saved_stdin
+                    if not given:
+                        # (nothing was given: it reads the real console, which is at its end here - CPython's input() raises EOFError)
+                        ctx.count('runs_with_the_real_console_and_no_inputs_(not judged)')
+                        ref_ns = None
+                        continue
                 got = unwrap(sbx.get_sandbox().data.get('first'))
             else:
                 ref_ns['input'] = fake_input
